@@ -419,7 +419,9 @@ fn first_match(hdr: &[u32; NCAP], ty: u8) -> Option<usize> {
         let id = hdr[i] as u8;
         let cap_len = (hdr[i] >> 16) as u8;
         let cfg_type = (hdr[i] >> 24) as u8;
-        if id == 0x09 && cap_len >= 16 && cfg_type == ty && (ty != 2 || cap_len >= 20) {
+        // usable: a VirtIO capability (vendor id 9) of at least 16 bytes (20 for notify) that lies inside the 256-byte
+        // configuration space (a capability that claims to extend beyond it is skipped)
+        if id == 0x09 && cap_len >= 16 && CAP0 + CAP_STRIDE * i + cap_len as usize <= 256 && cfg_type == ty && (ty != 2 || cap_len >= 20) {
             return Some(i);
         }
         i += 1;
